@@ -7,8 +7,8 @@ import (
 	"testing/synctest"
 	"time"
 
-	bitcoin_reader "github.com/tokenized/bitcoin_reader"
 	"github.com/google/uuid"
+	bitcoin_reader "github.com/tokenized/bitcoin_reader"
 	"github.com/tokenized/logger"
 	"github.com/tokenized/pkg/bitcoin"
 	"github.com/tokenized/pkg/wire"
@@ -477,8 +477,8 @@ func init() {
 		Real: append([]string{"TxManager (AddTxID, AddTx, GetTxRequests, Run, sendTx: real code)"}, nodeReal...), Stub: nodeStub,
 		Assumptions: []string{"manager calls of different peers are issued one at a time by the driver (call-granularity interleaving, including several calls at the same fake instant); deliveries (AddTx) run on their own goroutine and can be held at the two marked scheduling points (between the bucket lock and the entry lock, and before the tx is forwarded) while other calls proceed; other interleavings inside one call are not controlled by this engine",
 			"the sequential reference is the property's own rule: first announcer is asked; others are remembered; after the timeout an announcement or a retry poll re-requests; nothing is requested after delivery"},
-		FaultKinds: []string{"fragmentation", "delivery-delay", "stalled-delivery-released"},
-		ProbeNames: []string{"run-with-stalled-deliveries", "announcement-during-stalled-delivery", "announcement-while-outstanding", "re-request-after-timeout-on-announcement", "retry-granted", "unsolicited-delivery", "duplicate-delivery", "getdata-seen", "request-ignored-by-peer", "retry-request-sent", "same-tx-announced-by-two-peers-same-instant"},
+		FaultKinds:   []string{"fragmentation", "delivery-delay", "stalled-delivery-released"},
+		ProbeNames:   []string{"run-with-stalled-deliveries", "announcement-during-stalled-delivery", "announcement-while-outstanding", "re-request-after-timeout-on-announcement", "retry-granted", "unsolicited-delivery", "duplicate-delivery", "getdata-seen", "request-ignored-by-peer", "retry-request-sent", "same-tx-announced-by-two-peers-same-instant"},
 		Run:          runC06,
 		QuickSeconds: 20, ThoroughSeconds: 600, MinRuns: 300, BatchSize: 50, RunTimeoutSeconds: 240,
 	})
